@@ -156,6 +156,10 @@ def _runner_outcome(rep, p, r, runner):
                 return
         else:
             n_ok += 1
+            ran = [c for c in list(q.calls) + list(q.env.values()) for x in ast.walk(c) if isinstance(x, ast.Call) and (dotted(x.func) or '').split('.')[-1] in ('query_csv', 'query_sqlite_to_csv', 'query')]
+            if not ran:
+                rep.violated(runner + ' outcome', q.node, '{} reports success on a path that never runs the query (no call of query_csv / query_sqlite_to_csv)'.format(runner))
+                return
             if shows_err or val is not True:
                 rep.violated(runner + ' outcome', q.node, 'after a successful query {} {} and returns `{}`'.format(runner, 'prints an error line' if shows_err else 'prints no error', node_text(q.value, 40)))
                 return
@@ -457,6 +461,25 @@ def rule_cl_presence(cx, rep, port='py'):
             rep.violated('args.{} presence tests'.format(attr), bad[0], '`args.{}` is tested for truthiness in {} although line {} assigns it the legal value {!r}: that setting is treated as "option missing"'.format(attr, fd.name if fd is not None else '<module>', site.lineno, const_value(site.value)))
         else:
             rep.holds('args.{} presence tests'.format(attr), site, '{} presence tests, all `is None` / `is not None`'.format(len(pres)))
+    # `x = args.o if args.o is not None else default`: the arm taken when the option is present is the option itself, the other one
+    # is not (a flipped test hands None on when the option is missing and ignores it when it is given)
+    n_sel = 0
+    for e in ast.walk(mod):
+        if not (isinstance(e, ast.IfExp) and isinstance(e.test, ast.Compare) and len(e.test.ops) == 1 and is_none(e.test.comparators[0]) and isinstance(e.test.ops[0], (ast.Is, ast.IsNot)) and (dotted(e.test.left) or '').startswith('args.')):
+            continue
+        opt = dotted(e.test.left)
+        present, absent = (e.body, e.orelse) if isinstance(e.test.ops[0], ast.IsNot) else (e.orelse, e.body)
+        uses = lambda x: any(dotted(y) == opt for y in ast.walk(x))  # noqa: E731
+        if not (uses(present) or uses(absent)):
+            continue
+        n_sel += 1
+        fd_ = enclosing_func(e)
+        key = 'default of {} in {}'.format(opt, fd_.name if fd_ is not None else '<module>')
+        if dotted(absent) == opt or (uses(absent) and not uses(present)):
+            rep.violated(key, e, '`{}`: when {} is given it is replaced by the default, and when it is missing None is handed on: the command line ignores the option the library entry points honour'.format(node_text(e, 90), opt))
+        else:
+            rep.holds(key, e, 'the option when present, the default otherwise')
+    rep.require_count('option-or-default selections', n_sel, 2, (p.files['rbql_main'], 0))
 
 
 def rule_if_regfresh(cx, rep, port):
@@ -616,3 +639,107 @@ def rule_if_varmap(cx, rep, port):
         else:
             rep.holds(key + ' names', fd, 'name-based variables are registered whenever {} is present, whatever else holds'.format(' / '.join(sorted(sources - {'self.has_header'})) or 'the header'))
     rep.require_count('iterators with name-based variables', n, 4 if port == 'py' else 2, (p.files[cx.engine_mod(port)], 0))
+
+
+def rule_cl_options(cx, rep, port='py'):
+    """every `args.<name>` the command line reads - in the entry point and in every function the parsed arguments are handed to - is
+    an option that entry point's parser declares (or an attribute the code itself sets first).  A read of an undeclared option is an
+    AttributeError at run time in that front end only, instead of the result the other front ends give.  Calls are followed with
+    their constant arguments, so `run_interactive_loop('csv', args)` only reaches the csv runner."""
+    p = cx.py
+    if 'rbql_main' not in p.modules:
+        raise Undecided('rbql_main missing')
+    mod = p.modules['rbql_main']
+    funcs = {st.name: st for st in mod.body if isinstance(st, ast.FunctionDef)}
+
+    def declared(fd):
+        out = set()
+        for c in ast.walk(fd):
+            if isinstance(c, ast.Call) and isinstance(c.func, ast.Attribute) and c.func.attr == 'add_argument' and c.args:
+                names = [a.value for a in c.args if isinstance(a, ast.Constant) and isinstance(a.value, str)]
+                if not names:
+                    continue
+                dest = [k.value.value for k in c.keywords if k.arg == 'dest' and isinstance(k.value, ast.Constant)]
+                longs = [n_ for n_ in names if n_.startswith('--')]
+                out.add(dest[0] if dest else (longs[0][2:] if longs else names[0].lstrip('-')).replace('-', '_'))
+        return out
+
+    def truth(test, env):
+        if isinstance(test, ast.Compare) and len(test.ops) == 1 and isinstance(test.left, ast.Name) and test.left.id in env and isinstance(test.comparators[0], ast.Constant):
+            eq = env[test.left.id] == test.comparators[0].value
+            if isinstance(test.ops[0], (ast.Eq, ast.Is)):
+                return eq
+            if isinstance(test.ops[0], (ast.NotEq, ast.IsNot)):
+                return not eq
+        return None
+
+    def visit(fd, param, env, seen, reads, stores):
+        def stmts(body):
+            for st in body:
+                if isinstance(st, ast.If):
+                    v = truth(st.test, env)
+                    expr(st.test)
+                    if v is not False:
+                        stmts(st.body)
+                    if v is not True:
+                        stmts(st.orelse)
+                    continue
+                for fld in ('body', 'orelse', 'finalbody'):
+                    sub = getattr(st, fld, None)
+                    if isinstance(sub, list) and sub and isinstance(sub[0], ast.stmt):
+                        stmts(sub)
+                for h in getattr(st, 'handlers', []) or []:
+                    stmts(h.body)
+                for fld, val in ast.iter_fields(st):
+                    if fld in ('body', 'orelse', 'finalbody', 'handlers'):
+                        continue
+                    for x in (val if isinstance(val, list) else [val]):
+                        if isinstance(x, ast.AST):
+                            expr(x)
+
+        def expr(e):
+            for n in ast.walk(e):
+                if isinstance(n, ast.Attribute) and isinstance(n.value, ast.Name) and n.value.id == param:
+                    (stores if isinstance(n.ctx, ast.Store) else reads).setdefault(n.attr, []).append(n)
+                if isinstance(n, ast.Call) and isinstance(n.func, ast.Name) and n.func.id in funcs:
+                    g = funcs[n.func.id]
+                    gparams = [a.arg for a in g.args.args]
+                    env2 = {}
+                    target = None
+                    for i, a in enumerate(n.args):
+                        if i >= len(gparams):
+                            break
+                        if isinstance(a, ast.Constant):
+                            env2[gparams[i]] = a.value
+                        if isinstance(a, ast.Name) and a.id == param:
+                            target = gparams[i]
+                    for k in n.keywords:
+                        if isinstance(k.value, ast.Constant) and k.arg:
+                            env2[k.arg] = k.value.value
+                        if isinstance(k.value, ast.Name) and k.value.id == param and k.arg:
+                            target = k.arg
+                    key = (g.name, target, tuple(sorted((k_, repr(v_)) for k_, v_ in env2.items())))
+                    if target is not None and key not in seen:
+                        seen.add(key)
+                        visit(g, target, env2, seen, reads, stores)
+        stmts(fd.body)
+    n = 0
+    for entry in ('csv_main', 'sqlite_main'):
+        fd = funcs.get(entry)
+        if fd is None:
+            raise Undecided('anchor vanished: rbql_main.' + entry, mod.body[0])
+        argsvar = [t.id for st in fd.body if isinstance(st, ast.Assign) and isinstance(st.value, ast.Call) and isinstance(st.value.func, ast.Attribute) and st.value.func.attr == 'parse_args' for t in st.targets if isinstance(t, ast.Name)]
+        if len(argsvar) != 1:
+            rep.undecided(entry + ' options', fd, 'parse_args() result not found')
+            continue
+        decl = declared(fd)
+        reads, stores = {}, {}
+        visit(fd, argsvar[0], {}, set(), reads, stores)
+        n += len(reads)
+        missing = sorted(k for k in reads if k not in decl and k not in stores)
+        if missing:
+            nd = reads[missing[0]][0]
+            rep.violated(entry + ' options', nd, '`args.{}` is read on the path from {}() but its parser declares no such option ({} declared): the command line fails with an AttributeError there'.format(missing[0], entry, len(decl)))
+        else:
+            rep.holds(entry + ' options', fd, '{} option attributes read, all declared by the parser or set by the code ({} declared)'.format(len(reads), len(decl)))
+    rep.require_count('option reads', n, 20, (p.files['rbql_main'], 0))
